@@ -22,6 +22,16 @@
   (`body_preserves_wf`, `reachable_wf`), hence `crash_json_resume_eq`: crash at ANY period, `to_json`,
   `from_json`, resume = the uninterrupted run.
 
+  Part 2b (the TEXT): `Lawful sh rd` is no longer a hypothesis of the headline statements.  `AcnModel/JsonText.lean`
+  models what CPython's `json` module writes and reads (`int.__repr__`, `null` / `true` / `false`,
+  `py_encode_basestring_ascii` with every escape incl. `\u00XX` and surrogate pairs, lists, dicts, the default
+  separators; `py_scanstring`, the number scanner); `json_string_roundtrip`, `json_int_roundtrip`,
+  `json_value_roundtrip` prove `loads (dumps v) = v` for EVERY value built from None, bool, int, str, list, dict and
+  float TEXTS; `scalar_codec_lawful` instantiates the scalar codec with it (`RegistryJson.jsonShow / jsonRead`) and
+  proves `Lawful` from the ONE remaining, named assumption about doubles `DoubleText.RoundTrip` (`float(repr(x)) = x`
+  and `repr(x)` is a float token); `roundtrip_resume_eq_concrete`, `crash_json_resume_eq_concrete(_stateful)` are the
+  property with that codec, the document text included (`registry_text_roundtrip`).
+
   Part 3: the regenerated attribute tables (`Gen/Serial.lean`): every stateful attribute is dumped
   and every dumped key is restored, with an explicit allow-list.
 -/
@@ -35,6 +45,8 @@ import AcnProofs.Lemmas.RegistryDecode6
 import AcnProofs.Lemmas.RegistryDecode7
 import AcnProofs.Lemmas.RegistryWF2
 import AcnProofs.Lemmas.RegistryLawful
+import AcnProofs.Lemmas.RegistryJsonDoc
+import AcnProofs.Lemmas.RegistryJsonEx
 import AcnModel.Gen.Serial
 
 set_option linter.unusedSectionVars false
@@ -588,6 +600,154 @@ example : ¬ RegistrySim.WF exCfg
   revert this
   decide +kernel
 end ExamplesWF
+
+/-! ### the concrete scalar codec and the JSON text (`AcnModel/JsonText.lean`, `AcnModel/RegistryJson.lean`)
+
+  Everything below is about the text that CPython's `json` module writes and reads.  The ONLY assumption left is
+  about doubles: `RegistryJson.DoubleText.RoundTrip d` — `float(repr(x)) = x` (IEEE-754 shortest round-trip
+  printing, correctly rounded reading) and `repr(x)` has the lexical shape of a float (never that of an `int`). -/
+
+open Acn.JsonText Acn.RegistryJson in
+/-- STRINGS: `py_scanstring` undoes `py_encode_basestring_ascii` for EVERY string (any `Char` sequence: quote,
+    backslash, `\n \r \t \b \f`, the other control characters and DEL as `\u00XX`, non-ASCII as `\uXXXX`, characters
+    beyond U+FFFF as a surrogate pair), whatever follows the closing quote; hence `loads(dumps(s)) = s`. -/
+theorem json_string_roundtrip (s : String) :
+    (∀ rest, scanStr none (escape s.toList ++ '"' :: rest) = some (s.toList, rest)) ∧
+    parse (render (.str s)) = some (.str s) :=
+  ⟨fun rest => scanStr_escape s.toList rest, parse_render (.str s) rfl⟩
+
+open Acn.JsonText in
+/-- INTEGERS: for every Python int `n` (negative ones too) the text `repr(n)` is recognised as an integer text —
+    never as a float — and `int(repr(n)) = n`; through the document parser it comes back as `JVal.int n`. -/
+theorem json_int_roundtrip (n : Int) :
+    isIntTok (toString n).toList = true ∧ isFloatTok (toString n).toList = false ∧
+    intOfTok (toString n).toList = n ∧ parse (toString n).toList = some (.int n) :=
+  ⟨isIntTok_renderInt n, not_isFloatTok_renderInt n, intOfTok_renderInt n, Acn.RegistryJson.parse_renderInt n⟩
+
+open Acn.JsonText in
+/-- VALUES: `json.loads(json.dumps(v)) = v` for EVERY value built from `None`, `bool`, `int`, `str`, `list`,
+    `dict` (string keys, insertion order) and float TEXTS that have the shape of a float (`v.wf`) — nested to any
+    depth, with any strings as keys and leaves; also with blanks / the trailing newline of `to_json(path)` around
+    the document. -/
+theorem json_value_roundtrip (v : JVal) (hw : v.wf = true) :
+    parse (render v) = some v ∧
+    ∀ pre post : List Char, pre.all isWs = true → post.all isWs = true → parse (pre ++ (render v ++ post)) = some v :=
+  ⟨parse_render v hw, fun pre post h1 h2 => parse_render_padded v hw pre post h1 h2⟩
+
+open Acn.RegistryJson in
+/-- THE SCALAR CODEC, concretely: the writers / readers that produce and consume exactly the text of CPython's
+    `json` module are `Lawful` — ints of any sign, naturals, strings, `None`, and the pilot / rate matrices (a dict
+    holding a list of lists of floats) with no assumption, floats by `d.RoundTrip`. -/
+theorem scalar_codec_lawful {K : Type} (d : DoubleText K) (hd : d.RoundTrip) :
+    RegistrySim.Lawful (jsonShow d) (jsonRead d) :=
+  jsonLawful d hd
+
+open Acn.JsonText Acn.RegistryJson in
+/-- the leaves that `RegistrySim.encode` writes are typed in the document as Python types them: `str`, `int`
+    (also the iteration counter), `bool`, `None`, `float` (its `repr` text), references as decimal id strings -/
+theorem json_leaf_types {K : Type} (d : DoubleText K) (hd : d.RoundTrip) :
+    (∀ x : String, valJ (RegistrySim.sS x) = .str x) ∧ (∀ n : Int, valJ (RegistrySim.sI n) = .int n) ∧
+    (∀ n : Nat, valJ (RegistrySim.sN n) = .int n) ∧ (∀ b : Bool, valJ (RegistrySim.sB b) = .bool b) ∧
+    valJ RegistrySim.sNull = .null ∧ (∀ x : K, valJ (RegistrySim.sF (jsonShow d) x) = .num (d.repr x)) ∧
+    (∀ m : Pilots.Mat K, valJ (.scalar ("m:" ++ (jsonShow d).mat m)) = matJ d m) ∧
+    (∀ i : Id, valJ (.ref i) = .str (toString i)) :=
+  ⟨valJ_sS, valJ_sI, valJ_sN, valJ_sB, valJ_sNull, valJ_sF d hd, valJ_mat d hd, valJ_ref⟩
+
+open Acn.JsonText Acn.RegistryJson in
+/-- THE DOCUMENT: for EVERY store and root — whatever session ids, station ids, class and attribute names it
+    holds — `json.loads(obj.to_json())` is the registry value that `_to_registry` built. -/
+theorem registry_text_roundtrip (ctx : Store) (root : Id) :
+    parseS (toJsonText ctx root) = some (registryJ ctx root) :=
+  Acn.RegistryJson.registry_text_roundtrip ctx root
+
+open Acn.JsonText Acn.RegistryJson in
+/-- ROUND TRIP + RESUME with the CONCRETE codec (instance of `roundtrip_resume_eq`): the only hypothesis about
+    the codec is `d.RoundTrip` (doubles).  `to_json` succeeds, the text it writes parses back to the registry it
+    was written from, `from_json` rebuilds exactly the dumped context, the concrete decoder returns `s`, and every
+    continuation of the run from the decoded state is the continuation from `s`. -/
+theorem roundtrip_resume_eq_concrete {K : Type} [Add K] [Sub K] [Mul K] [Div K] [Neg K] [LT K] [LE K]
+    [DecidableLT K] [DecidableLE K] [OfNat K 0] [OfNat K 1] [NatCast K] [HasExp K]
+    (d : DoubleText K) (hd : d.RoundTrip)
+    (cfg : Sim.Cfg K) (sched : View K → Except EventCore.Err (Schedule K)) (s : State K)
+    (hwf : RegistrySim.WF cfg s) (href : RegistrySim.AllRef cfg s) :
+    ∃ ctx, dump (RegistrySim.encode (jsonShow d) cfg s) RegistrySim.root = .ok ctx ∧
+      parseS (toJsonText ctx RegistrySim.root) = some (registryJ ctx RegistrySim.root) ∧
+      load ctx RegistrySim.root = .ok ctx ∧
+      RegistrySim.decode (jsonRead d) cfg (RegistrySim.ambOf s) ctx.get = some s ∧
+      ∀ n, (RegistrySim.decode (jsonRead d) cfg (RegistrySim.ambOf s) ctx.get).map (run cfg sched n) =
+        some (run cfg sched n s) := by
+  obtain ⟨ctx, h1, h2, h3, h4⟩ := roundtrip_resume_eq (jsonLawful d hd) cfg sched s hwf href
+  exact ⟨ctx, h1, Acn.RegistryJson.registry_text_roundtrip ctx _, h2, h3, h4⟩
+
+open Acn.JsonText Acn.RegistryJson in
+/-- THE PROPERTY with the concrete codec: `Valid` scenario, ANY crash period `k`, fuel, scheduler; the document
+    text is written and parsed by the modelled `json` module; the only assumption is `d.RoundTrip`. -/
+theorem crash_json_resume_eq_concrete {K : Type} [Add K] [Sub K] [Mul K] [Div K] [Neg K] [LT K] [LE K]
+    [DecidableLT K] [DecidableLE K] [OfNat K 0] [OfNat K 1] [NatCast K] [HasExp K]
+    (d : DoubleText K) (hd : d.RoundTrip)
+    (cfg : Sim.Cfg K) (sched : View K → Except EventCore.Err (Schedule K)) (hv : Valid cfg.core) (k n : Nat) :
+    let r1 := run cfg (failAt k sched) n (Sim.init cfg)
+    ∃ ctx s', dump (RegistrySim.encode (jsonShow d) cfg r1.1) RegistrySim.root = .ok ctx ∧
+      parseS (toJsonText ctx RegistrySim.root) = some (registryJ ctx RegistrySim.root) ∧
+      load ctx RegistrySim.root = .ok ctx ∧
+      RegistrySim.decode (jsonRead d) cfg (RegistrySim.ambOf r1.1) ctx.get = some s' ∧ s' = r1.1 ∧
+      (r1 = run cfg sched n (Sim.init cfg) ∨
+       (r1.2 = some EventCore.Err.schedulerFailed ∧ r1.1.core.iter = k ∧
+        ObsEqR (run cfg sched (n - k) s') (run cfg sched n (Sim.init cfg)))) := by
+  intro r1
+  obtain ⟨ctx, s', h1, h2, h3, h4, h5⟩ := crash_json_resume_eq (jsonLawful d hd) cfg sched hv k n
+  exact ⟨ctx, s', h1, Acn.RegistryJson.registry_text_roundtrip ctx _, h2, h3, h4, h5⟩
+
+open Acn.JsonText Acn.RegistryJson in
+/-- … and for a scheduler WITH hidden state (instance of `crash_json_resume_eq_stateful`) -/
+theorem crash_json_resume_eq_stateful_concrete {K : Type} [Add K] [Sub K] [Mul K] [Div K] [Neg K] [LT K] [LE K]
+    [DecidableLT K] [DecidableLE K] [OfNat K 0] [OfNat K 1] [NatCast K] [HasExp K] {σ : Type}
+    (d : DoubleText K) (hd : d.RoundTrip)
+    (cfg : Sim.Cfg K) (sched : σ → View K → Except EventCore.Err (Schedule K × σ)) (hv : Valid cfg.core)
+    (st0 : σ) (k n : Nat) :
+    let r1 := SimSortedRd.runSt cfg (SimSortedRd.failAtSt k sched) n st0 (Sim.init cfg)
+    let r := SimSortedRd.runSt cfg sched n st0 (Sim.init cfg)
+    ∃ ctx s', dump (RegistrySim.encode (jsonShow d) cfg r1.1.1) RegistrySim.root = .ok ctx ∧
+      parseS (toJsonText ctx RegistrySim.root) = some (registryJ ctx RegistrySim.root) ∧
+      load ctx RegistrySim.root = .ok ctx ∧
+      RegistrySim.decode (jsonRead d) cfg (RegistrySim.ambOf r1.1.1) ctx.get = some s' ∧ s' = r1.1.1 ∧
+      (r1 = r ∨
+       (r1.1.2 = some EventCore.Err.schedulerFailed ∧ r1.1.1.core.iter = k ∧
+        ObsEqR (SimSortedRd.runSt cfg sched (n - k) r1.2 s').1 r.1 ∧
+        (SimSortedRd.runSt cfg sched (n - k) r1.2 s').2 = r.2)) := by
+  intro r1 r
+  obtain ⟨ctx, s', h1, h2, h3, h4, h5⟩ := crash_json_resume_eq_stateful (jsonLawful d hd) cfg sched hv st0 k n
+  exact ⟨ctx, s', h1, Acn.RegistryJson.registry_text_roundtrip ctx _, h2, h3, h4, h5⟩
+
+/-! #### non-vacuity of the text layer -/
+section ExamplesJson
+open Acn.JsonText Acn.RegistryJson
+local instance : HasExp ℚ := ⟨fun _ => 1⟩
+
+-- the assumption about doubles is satisfiable (a text form of ℚ that is a float token and is read back) …
+example : exDouble.RoundTrip := exDouble_roundTrip
+-- … so the whole chain applies to the crash state of `exCfg` with NO hypothesis left
+example : ∃ ctx s', dump (RegistrySim.encode (jsonShow exDouble) exCfg (run exCfg (failAt 1 exSched) 6 (Sim.init exCfg)).1)
+      RegistrySim.root = .ok ctx ∧
+    parseS (toJsonText ctx RegistrySim.root) = some (registryJ ctx RegistrySim.root) ∧
+    RegistrySim.decode (jsonRead exDouble) exCfg (RegistrySim.ambOf (run exCfg (failAt 1 exSched) 6 (Sim.init exCfg)).1)
+      ctx.get = some s' ∧ s' = (run exCfg (failAt 1 exSched) 6 (Sim.init exCfg)).1 := by
+  obtain ⟨ctx, s', h1, h2, _, h4, h5, _⟩ := crash_json_resume_eq_concrete exDouble exDouble_roundTrip exCfg exSched exCfg_valid 1 6
+  exact ⟨ctx, s', h1, h2, h4, h5⟩
+-- what the encoder writes for ids that need escaping: quote, backslash, newline, NUL, DEL, é, an astral character
+example : String.ofList (render (.str "a\"b\\c\n\x00\x7fé😀")) = "\"a\\\"b\\\\c\\n\\u0000\\u007f\\u00e9\\ud83d\\ude00\"" := by
+  decide +kernel
+-- the decoder accepts upper-case hex, `\/`, a surrogate pair, blanks; refuses a raw control character and a lone surrogate
+example : (parse "  [\"\\u00E9\\/\\uD83D\\uDE00\", -12, 0, true, null, {\"\": []}] ".toList).map (fun v => String.ofList (render v)) =
+    some "[\"\\u00e9/\\ud83d\\ude00\", -12, 0, true, null, {\"\": []}]" := by decide +kernel
+example : parse "\"a\nb\"".toList = none ∧ parse "\"\\ud83d\"".toList = none ∧ parse "\"\\ude00\"".toList = none := by
+  refine ⟨?_, ?_, ?_⟩ <;> decide +kernel
+-- an id that looks like a number stays a string; an int stays an int; a float text stays a float; `5.0` is not `5`
+example : (parse "[\"123\", 123, 123.0, 1e-05, NaN, -Infinity]".toList).map (fun v => String.ofList (render v)) =
+    some "[\"123\", 123, 123.0, 1e-05, NaN, -Infinity]" := by decide +kernel
+example : isIntTok "123.0".toList = false ∧ isFloatTok "123.0".toList = true ∧ isFloatTok "123".toList = false ∧
+    isIntTok "-7".toList = true := by decide +kernel
+end ExamplesJson
 
 /-! ### non-vacuity: an EV shared by its station, `ev_history` and its pending UnplugEvent -/
 
